@@ -56,9 +56,32 @@ def table_seeds(d):
         out.append(f"| {m['property']} | {m['breaks']} - needs: {m['needs']} | {m['caught_by']} | {st} |")
     return "\n".join(out)
 
+def collect_robust():
+    res = {}
+    for sd in ("5", "66", "777"):
+        p = f"{ROOT}/target/robust-{sd}.txt"
+        if not os.path.exists(p):
+            return
+        for l in open(p):
+            m = re.match(r"(CAUGHT|MISSED|INCONCLUSIVE) (\S+) (\S+) rc=", l)
+            if m:
+                res.setdefault((m.group(2), m.group(3)), {})[sd] = m.group(1)
+    # patch.diff names are ambiguous: re-read the batch list for the order
+    order = [l.split() for l in open("/tmp/rb.txt")] if os.path.exists("/tmp/rb.txt") else []
+    rows = []
+    for sd in ("5", "66", "777"):
+        p = f"{ROOT}/target/robust-{sd}.txt"
+        got = [re.match(r"(CAUGHT|MISSED|INCONCLUSIVE) ", l).group(1) for l in open(p) if re.match(r"(CAUGHT|MISSED|INCONCLUSIVE) ", l)]
+        rows.append(got)
+    with open(f"{ROOT}/seeded/ROBUSTNESS.tsv", "w") as o:
+        for i, (patch, cid) in enumerate(order):
+            name = patch.replace("/verif/", "").replace("/patch.diff", "").replace(".diff", "")
+            o.write("\t".join([name, cid] + [r[i] if i < len(r) else "?" for r in rows]) + "\n")
+
 def main():
     if len(sys.argv) > 1 and sys.argv[1] == "collect":
         collect()
+        collect_robust()
     idx = {}
     p = f"{ROOT}/mutants2/INDEX.tsv"
     if os.path.exists(p):
@@ -77,6 +100,17 @@ def main():
     o.append("\n## Changes written by independent sub-agents, round 2 (`/verif/seeded2/<id>/`)\n")
     o.append("Same protocol; in addition each sub-agent was told, in one sentence, what the round-1 change for its property was and asked for a different code site, trigger and (where the property has several) clause.\n")
     o.append(table_seeds("seeded2"))
+    o.append("\n## Changes written by independent sub-agents, round 3 (`/verif/seeded3/<id>/`)\n")
+    o.append("Same protocol, with both earlier changes described and the request to pick a clause, code path, input class or API entry point neither of them touched.\n")
+    o.append(table_seeds("seeded3"))
+    rb = f"{ROOT}/seeded/ROBUSTNESS.tsv"
+    if os.path.exists(rb):
+        o.append("\n## Seed robustness of the concurrency-dependent catches\n")
+        o.append("The changes whose detection depends on a thread interleaving were each re-tried with three further `VERIF_SEED` values (5, 66, 777) at the quick tier.\n")
+        o.append("| change | check | seed 5 | seed 66 | seed 777 |\n|---|---|---|---|---|")
+        for l in open(rb):
+            f = l.rstrip("\n").split("\t")
+            o.append("| " + " | ".join(f) + " |")
     o.append("\n## Own mutants, EMF family (`/verif/mutants/*.diff`, from the sensitivity lists in DESIGN.md section 2)\n")
     o.append("| mutant | check | result | signature |\n|---|---|---|---|")
     for f in r1:
